@@ -190,7 +190,7 @@ impl LineIndex {
                 // same node twice): no lookup at all.
                 return (
                     entry.line_idx as usize + 1,
-                    offset - entry.line_start as usize + 1,
+                    (offset - entry.line_start as usize).saturating_add(1),
                 );
             }
 
@@ -215,7 +215,7 @@ impl LineIndex {
             line_start: start,
         }));
 
-        (idx + 1, offset - start as usize + 1)
+        (idx + 1, (offset - start as usize).saturating_add(1))
     }
 
     /// Try to resolve `query` by walking forward at most
@@ -246,7 +246,10 @@ impl LineIndex {
                         line_idx,
                         line_start,
                     }));
-                    return Some((line_idx as usize + 1, offset - line_start as usize + 1));
+                    return Some((
+                        line_idx as usize + 1,
+                        (offset - line_start as usize).saturating_add(1),
+                    ));
                 }
             }
         }
